@@ -318,6 +318,57 @@ def _check_labelling(ctx, name, oplist, depth, full, classes):
     ctx.traces_validated = ctx.transitions
 
 
+def check_dual_orientation(ctx, name):
+    """Orientation flips for spaces on the dual (barycentric) grid: a domain stored with reversed orientation and flagged in
+    swapped_normals must give the same operators as the consistently oriented grid.  Dual spaces have no dense assembly; the operators
+    are assembled in FMM mode with the exact-summation stand-in for exafmm (C17's stub), all unit vectors."""
+    import bempp_cl.api as bem
+
+    from bex.checks import c17
+
+    c17.install_stub()
+    mesh = meshes.get(name, ctx.seed)
+    v, e, d = mesh
+    doms = sorted(set(d.tolist()))
+    flip = doms[0]
+    mesh2 = meshes.reverse_elements(mesh, [j for j in range(e.shape[1]) if d[j] == flip])
+    g1, g2 = SP.make_grid(mesh), SP.make_grid(mesh2)
+    pairs = [("DUAL0", {"kind": "DUAL0", "inc": True, "trunc": False}), ("DUAL1", {"kind": "DUAL1"})]
+    for kind, spec in pairs:
+        s1 = SP.make_space(g1, dict(spec))
+        s2 = SP.make_space(g2, dict(spec, swapped=(flip,)))
+        n = s1.global_dof_count
+        if s2.global_dof_count != n:
+            ctx.violation("orientation/dual/%s/dof-count" % kind, {"sub": "dual-orientation", "mesh": name, "space": kind}, "%d vs %d dofs" % (n, s2.global_dof_count))
+            continue
+        for family, k in ((("laplace", None),) if QUICK[0] else (("laplace", None), ("helmholtz", 0.7 + 0.4j))):
+            for opn in ("single_layer", "double_layer", "adjoint_double_layer"):
+                case = {"sub": "dual-orientation", "mesh": name, "space": kind, "family": family, "k": k, "operator": opn, "flipped_domain": int(flip)}
+                sig = "orientation/dual/%s/%s" % (family, opn)
+                res = {}
+                try:
+                    for tag, s_ in (("s6", 6), ("s9", 9)):
+                        par = ops.params(4, s_)
+                        A1 = c17.matrix_of(ops.boundary(family, opn, s1, s1, s1, k=k, par=par, assembler="fmm").weak_form(), n)
+                        A2 = c17.matrix_of(ops.boundary(family, opn, s2, s2, s2, k=k, par=par, assembler="fmm").weak_form(), n)
+                        res[tag] = (A1, A2)
+                except Exception as exc:  # noqa: BLE001
+                    ctx.violation(sig + "/exception:" + type(exc).__name__, case, repr(exc))
+                    continue
+                finally:
+                    bem.clear_fmm_cache()
+                scale = float(np.max(np.abs(res["s9"][0])))
+                e6 = float(np.max(np.abs(res["s6"][0] - res["s6"][1]))) / scale
+                e9 = float(np.max(np.abs(res["s9"][0] - res["s9"][1]))) / scale
+                q6 = max(float(np.max(np.abs(res["s6"][i] - res["s9"][i]))) for i in (0, 1)) / scale
+                ctx.case((name, "dual-orientation", kind, family, opn), sub="dual-orientation", sample=case if len(ctx.samples) < 4 else None)
+                ctx.observe("dual-orientation(singular order 9)", e9, 5e-6)
+                if e6 > 4 * q6 + 1e-11 or e9 > 5e-6 or (e6 > 1e-9 and e9 > 0.1 * e6):
+                    ctx.violation(sig, dict(case, diff6=e6, diff9=e9, quad6=q6),
+                                  "%s operator on the grid with domain %d reversed + swapped_normals differs from the consistently oriented grid by "
+                                  "%.2e (s=6) / %.2e (s=9); own quadrature error at s=6 is %.2e" % (kind, flip, e6, e9, q6))
+
+
 def memoise_duffy():
     """The singular rules are pure functions of the order generated by Python loops (n^4 iterations); this check assembles several
     thousand tiny operators, so the generator is memoised for the duration of the run (its results are copied on every use)."""
@@ -365,6 +416,8 @@ def run(ctx):
     before = ctx.states
     check_labelling(ctx, "book3", junction_ops, 2 if quick else 3, True, [set(), set()], select=("segments", (1, 2)))
     ctx.cov["junction_labelling_states"] = ctx.states - before
+    for name in (["tet"] if quick else ["tet", "octa", "cube12"]):
+        check_dual_orientation(ctx, name)
     ctx.cov["edge_adjacency_classes"] = len(classes[0])
     ctx.cov["vertex_adjacency_classes"] = len(classes[1])
     ctx.require(len(classes[0]) == 18, "all 18 (test remap, trial remap) edge classes realised in the labelling graph: %d" % len(classes[0]))
@@ -382,6 +435,10 @@ def run(ctx):
 def replay(ctx, case):
     quick = False
     oplist = [op for op in operator_list(False) if op[0] == case.get("operator")] or operator_list(True)
+    if case["sub"] == "dual-orientation":
+        memoise_duffy()
+        check_dual_orientation(ctx, case["mesh"])
+        return
     if case["sub"] in ("motion", "scaling"):
         check_motion_and_scaling(ctx, case["mesh"], oplist, False)
     else:
